@@ -519,8 +519,8 @@ fn check_stream(p: &Prepared, code: &str, bytes: &[u8], rdr: &str, expect0: &[Ve
             if full_ok(p) {
                 return bad("detect-short-first-read", format!("{code} first read {wlen} of {} bytes: {stage} {kind}", bytes.len()));
             }
-            if stage == "build" && code == "samgz" && p.spec.text().len() < 4 {
-                return bad("detect-short-input-error", format!("samgz text of {} bytes: build {kind}", p.spec.text().len()));
+            if code == "samgz" && p.spec.text().len() < 4 {
+                return bad("detect-short-input-error", format!("samgz text of {} bytes: {stage} {kind}", p.spec.text().len()));
             }
             if code == "sam" && sam_text_starts_with_cram(p) {
                 return bad("detect-sam-as-cram", format!("header-less SAM starting `{}`: {stage} {kind}", &p.spec.lines[0][..p.spec.lines[0].len().min(12)]));
@@ -534,6 +534,9 @@ fn check_stream(p: &Prepared, code: &str, bytes: &[u8], rdr: &str, expect0: &[Ve
     if rb.variant != family(code) {
         if full_ok(p) {
             return bad("detect-short-first-read", format!("{code} first read {wlen} of {} bytes: detected {}", bytes.len(), rb.variant));
+        }
+        if code == "samgz" && p.spec.text().len() < 4 {
+            return bad("detect-short-input-error", format!("samgz text of {} bytes: detected {}", p.spec.text().len(), rb.variant));
         }
         if code == "sam" && rb.variant == "cram" && sam_text_starts_with_cram(p) {
             return bad("detect-sam-as-cram", "header-less SAM whose first read name starts with CRAM");
